@@ -49,7 +49,7 @@ def sym_str(ctx, name, n, alphabet=None, lo=0, hi=127, kind="str"):
         dom = frozenset(ord(c) if isinstance(c, str) else int(c) for c in alphabet)
         lo, hi = min(dom), max(dom)
     for i in range(n):
-        e = z3.Int("%s_%d" % (name, i))
+        e = V.ivar("%s_%d" % (name, i))
         c = SInt(e, lo, hi, dom=dom)
         if dom is not None and len(dom) < (hi - lo + 1):
             ctx.assume(V.in_ranges(e, dom))
@@ -60,7 +60,7 @@ def sym_str(ctx, name, n, alphabet=None, lo=0, hi=127, kind="str"):
 
 
 def sym_int(ctx, name, lo, hi):
-    e = z3.Int(name)
+    e = V.ivar(name)
     ctx.assume(z3.And(e >= lo, e <= hi))
     return SInt(e, lo, hi)
 
@@ -68,7 +68,7 @@ def sym_int(ctx, name, lo, hi):
 def model_int(model, x):
     if isinstance(x, SInt):
         v = model.eval(x.e, model_completion=True)
-        return v.as_long()
+        return V.ival_of(v)
     if isinstance(x, V.SBool):
         return bool(z3.is_true(model.eval(x.e, model_completion=True)))
     if isinstance(x, V.SBV):
@@ -108,7 +108,10 @@ class Job:
     def claim(self, ctx, claim, what, make_cex, timeout_ms=None, assuming=()):
         """One property obligation on the current path.  make_cex(model) -> dict."""
         self.obligations += 1
+        _t = time.time()
         r = ctx.check_claim(claim, timeout_ms, assuming)
+        self.extra.setdefault("claim_s", {})
+        self.extra["claim_s"][what[:40]] = round(self.extra["claim_s"].get(what[:40], 0) + time.time() - _t, 2)
         if r == "unsat":
             self.discharged += 1
             return True
@@ -132,8 +135,10 @@ class Job:
         if not obs:
             return True
         self.obligations += len(obs)
+        _t = time.time()
         bad = z3.Or(*[z3.And(*(list(o.guard.atoms) + [z3.Not(o.cond)])) for o in obs])
-        r = ctx.is_sat([bad], timeout_ms)
+        r = ctx.fresh_sat([bad], timeout_ms)
+        self.extra["safety_s"] = round(self.extra.get("safety_s", 0) + time.time() - _t, 2)
         if r == "unsat":
             self.discharged += len(obs)
             return True
@@ -155,7 +160,9 @@ class Job:
 
     def witness(self, ctx, cond, timeout_ms=20000):
         """Reachability twin: cond must be satisfiable on this path (else the harness is vacuous)."""
-        r = ctx.is_sat([cond] if cond is not None else [], timeout_ms)
+        _t = time.time()
+        r = ctx.fresh_sat([cond] if cond is not None else [], timeout_ms)
+        self.extra["witness_s"] = round(self.extra.get("witness_s", 0) + time.time() - _t, 2)
         if r == "sat":
             self.vacuity = True if self.vacuity is None else self.vacuity
             return True
